@@ -208,11 +208,42 @@ fn exec_c<C: Suite>(scen: &Scenario) -> Exec {
         rep.probe("tr_R_even");
     }
     let ids: Vec<Identifier<C>> = a.shares.keys().cloned().collect(); // sorted by identifier
+    // Taproot: "a share computed WITHOUT the BIP-340 nonce negation" (what a signer running plain RFC 9591 round two sends)
+    // differs from the honest one by 2(d + e*rho) when the group commitment has odd Y. Needs the signer's nonces (recorded)
+    // and its binding factor (diagnostics); only constructs the wrong share - the verdict is the usual culprit oracle.
+    let mut unnegated: BTreeMap<Identifier<C>, frost::Scalar<C>> = BTreeMap::new();
+    if C::IS_TR {
+        let npk = C::normalised_pk(a.pk.clone());
+        if let Some((bfs, gc)) = crate::diag::binding::<C>(&a.package, npk.verifying_key()) {
+            if gc.first() == Some(&0x03) {
+                for r in &sim.history {
+                    if let Record::Commit { node, inst, nonces, .. } = r {
+                        if *inst == sess[0].0 {
+                            let id = sim.ids[*node];
+                            let (Some(d), Some(e), Some(rho)) = (sc_from_bytes::<C>(&nonces.hiding().serialize()), sc_from_bytes::<C>(&nonces.binding().serialize()), bfs.get(&id).and_then(|b| sc_from_bytes::<C>(b))) else { continue };
+                            if let Some(z) = a.shares.get(&id) {
+                                let t2 = d + e * rho;
+                                unnegated.insert(id, sigshare_scalar::<C>(z) + t2 + t2);
+                            }
+                        }
+                    }
+                }
+            }
+        }
+    }
     let signer_nodes: Vec<usize> = match scen.inst(sess[0].0) {
         Some(Inst::Sign { signers, .. }) => signers.clone(),
         _ => vec![],
     };
-    let assignments = scen.extra.get("assignments").and_then(|v| v.as_array()).cloned().unwrap_or_default();
+    let mut assignments = scen.extra.get("assignments").and_then(|v| v.as_array()).cloned().unwrap_or_default();
+    if !unnegated.is_empty() && scen.extra.get("only").is_none() {
+        let k = ids.len();
+        assignments.push(json!([[format!("sorted:{}", k - 1), "tr_unnegated"]]));
+        assignments.push(json!([[format!("sorted:{}", 0), "tr_unnegated"]]));
+        if k >= 3 {
+            assignments.push(json!([[format!("sorted:{}", 1), "tr_unnegated"], [format!("sorted:{}", k - 1), "plus1"]]));
+        }
+    }
     let mut rp = stream(scen.seed, scen.run, "c04/values");
     for (ai, asg) in assignments.iter().enumerate() {
         let items = asg.as_array().cloned().unwrap_or_default();
@@ -245,6 +276,10 @@ fn exec_c<C: Suite>(scen: &Scenario) -> Exec {
                     sigshare_scalar::<C>(&a.shares[other])
                 }
                 "other_session" => sigshare_scalar::<C>(&b.shares[&id]),
+                "tr_unnegated" => match unnegated.get(&id) {
+                    Some(z) => *z,
+                    None => honest + one::<C>(),
+                },
                 "pair_plus" => honest + delta,
                 "pair_minus" => honest - delta,
                 _ => sc_random::<C>(&mut rp),
@@ -327,6 +362,36 @@ fn exec_c<C: Suite>(scen: &Scenario) -> Exec {
                                     return Exec::Violation(Violation::new("C04", "C04.disabled_names_someone", ctx(&format!("Disabled must name nobody, got {e:?}"))), rep);
                                 }
                             }
+                        }
+                    }
+                }
+            }
+        }
+        // (1'') Taproot-tweaked sessions: the dedicated entry point (it tweaks the package itself) must give the same answers
+        if let SignMode::Tweak(root) = &sess[0].2 {
+            let raw_pk = sim.history.iter().find_map(|r| match r {
+                Record::Session { inst, pk, .. } if *inst == sess[0].0 => Some(pk.clone()),
+                _ => None,
+            });
+            if let Some(raw_pk) = raw_pk {
+                rep.evaluations += 1;
+                rep.probe("aggregate_with_tweak_checked");
+                match crate::tr::aggregate_with_tweak::<C>(&a.package, &submitted, &raw_pk, root.as_deref()) {
+                    Ok(sig) => {
+                        if a.pk.verifying_key().verify(a.package.message(), &sig).is_err() {
+                            return Exec::Violation(Violation::new("C04", "C04.invalid_signature_released", ctx("aggregate_with_tweak returned a signature that does not verify")), rep);
+                        }
+                        if !cancels {
+                            return Exec::Violation(Violation::new("C04", "C04.bad_shares_accepted", ctx("aggregate_with_tweak returned Ok although the submitted shares do not add up")), rep);
+                        }
+                    }
+                    Err(e) => {
+                        let culprits: BTreeSet<Identifier<C>> = e.culprits().into_iter().collect();
+                        if !culprits.is_subset(&d) {
+                            return Exec::Violation(Violation::new("C04", "C04.honest_participant_blamed", ctx(&format!("aggregate_with_tweak error {e:?} names a participant whose share is the honest one"))), rep);
+                        }
+                        if !cancels && e.culprits() != vec![dmin] {
+                            return Exec::Violation(Violation::new("C04", "C04.first_cheater_wrong", ctx(&format!("aggregate_with_tweak must name exactly the lowest-identifier cheater, got {e:?}"))), rep);
                         }
                     }
                 }
